@@ -512,14 +512,8 @@ where
             pos.into()
         };
 
-        let progress = Progress {
-            draw: self.draw_count,
-            chain: self.chain,
-            diverging: info.diverging,
-            tuning: self.adapt.is_tuning(),
-            step_size: self.hamiltonian.step_size(),
-            num_steps: info.num_steps,
-        };
+        // The step size in force for this draw (adapt() below may change it).
+        let step_size = self.hamiltonian.step_size();
 
         // The collector was already fed during mclmc_kernel via register_leapfrog
         // on the sampled steps. Now call adapt with whatever was accumulated.
@@ -538,6 +532,17 @@ where
             // Refresh the collector for the next draw.
             self.collector = self.adapt.new_collector(math);
         }
+
+        // Built after adapt() (as in NutsChain::draw), so that `tuning` is
+        // false from draw `num_tune` on.
+        let progress = Progress {
+            draw: self.draw_count,
+            chain: self.chain,
+            diverging: info.diverging,
+            tuning: self.adapt.is_tuning(),
+            step_size,
+            num_steps: info.num_steps,
+        };
 
         self.draw_count += 1;
         self.state = state;
